@@ -43,6 +43,36 @@ class Facts:
             it._modconst_cache[("schwifty.checksum", "algorithms")] = table
         return it
 
+    # ------------------------------------------------------------------ the bank list as the tree's own loader composes it
+    def tree_banks(self):
+        """registry.get('bank') of the tree evaluated on the real bundled files (virtual directory filled with their parsed contents).
+        Equal to the data model's list when C18's R18-real holds; the rules about national validation of *listed* banks use this
+        list, so that whatever registry.py does to the entries on the way in (defaulting, normalising, filtering) is what they see."""
+        if getattr(self, "_tree_banks", None) is None:
+            import json, os
+            from .interp import CannotEvaluate, PathLimit
+            reg = self.ctx.registry
+            d = os.path.join(reg.pkgdir, "bank_registry")
+            files = []
+            for fn in sorted(os.listdir(d)):
+                if fn.endswith(".json"):
+                    with open(os.path.join(d, fn), encoding="utf-8") as fp:
+                        files.append((fn, json.load(fp)))
+            gf = self.program.find("schwifty.registry.get")
+            if gf is None:
+                raise AnalysisError("anchor vanished: schwifty.registry.get")
+            it = Interp(self.program)
+            it.max_steps = 50_000_000
+            it.vfs = {("path", "schwifty", "bank_registry"): files}
+            try:
+                outs = [o for o in it.explore(lambda: it.call_func(gf, ["bank"], {}, None), max_paths=50) if o.kind != "infeasible"]
+            except (CannotEvaluate, PathLimit) as e:
+                raise AnalysisError(f"cannot evaluate registry.get('bank') on the bundled files: {e}")
+            if len(outs) != 1 or outs[0].kind != "return" or not isinstance(outs[0].value, list):
+                raise AnalysisError("registry.get('bank') on the bundled files does not return a list")
+            self._tree_banks = outs[0].value
+        return self._tree_banks
+
     # ------------------------------------------------------------------ Component enum
     def components(self):
         """{member name: value} of schwifty.domain.Component, in declaration order."""
